@@ -558,6 +558,12 @@ func (s *vStep) life() {
 	switch res {
 	case 0:
 		s.change("running", "", nil, "outputs", step.RunningStepStateRunning)
+		if s.outcome["undeclared"] == 1 {
+			// a misbehaving step: it ends with an output id its lifecycle does not declare
+			s.complete("outputs", "surprise", map[any]any{"v": verifrt.NondetVal("out." + s.id)})
+			s.fail("deploy_failed", "disabled", "crashed", "closed")
+			return
+		}
 		s.complete("outputs", "success", map[any]any{"v": verifrt.NondetVal("out." + s.id), "flag": verifrt.NondetBool("flag." + s.id)})
 		s.fail("deploy_failed", "disabled", "crashed", "closed")
 	case 1:
